@@ -45,6 +45,7 @@ type FilterSpec struct {
 	Rels       []RelSpec `json:"rels,omitempty"` // fixed relation targets
 	Registered bool      `json:"-"`
 	Queried    bool      `json:"-"`
+	Emptied    bool      `json:"-"` // a matching relation table was emptied while the filter was registered
 	Stale      bool      `json:"-"` // fixed target handle predates the last Reset: outside the domain
 }
 
